@@ -1,10 +1,13 @@
 import RoutinatorModel.Drv.Main
 import RoutinatorModel.Drv.Validity
+import RoutinatorModel.Drv.Snapshot
 open RoutinatorModel.Drv
 
 def dispatch (comp arg : String) : String :=
   match comp with
   | "c20" => runC20 arg
+  | "c09" => runC09 arg
+  | "c08" => runC09 arg
   | _ => "bad-component"
 
 def main : IO Unit := mainWith dispatch
